@@ -115,10 +115,9 @@ class Agg:
         item["paths"], item["cut_by_unroll_bound"], item["unroll"] = len(ex.paths), ex.cut, ex.unroll
         if st == "proved" and witness:
             # vacuity witness: the side conditions are consistent and at least one Ok-returning path is feasible
-            oks = [pc_term(p.pc) for p in ex.paths if p.outcome == "return"][:400]
-            self.ob.check(name + "/witness", ex.decls, ex.side, "(or false " + " ".join(oks) + ")",
-                          "vacuity witness: some returning path of the encoded function is feasible under the side conditions",
-                          expect="refuted")
+            oks = [pc_term(p.pc) for p in ex.paths if p.outcome == "return" or p.outcome.startswith("stop")]
+            self.ob.witness_many(name + "/witness", ex.decls, ex.side, oks,
+                                 "vacuity witness: some returning path of the encoded function is feasible under the side conditions")
         return item if st == "refuted" else None
 
     # ------------------------------------------------------------------------------------------
